@@ -64,7 +64,7 @@ def style_mappings(g):
             back = DFXPReader()._convert_style(tag)
             g.check(f"DFXP italic attribute read back with {sorted(d)}", (back.get("italics") is True) == flags[0], {"style": back})
     for k, (o, cl) in {"italics": ("<i>", "</i>"), "bold": ("<b>", "</b>"), "underline": ("<u>", "</u>"), "other": ("", "")}.items():
-        g.check(f"WebVTT tag of {k}", VW._convert_style_to_text_tag(k) == [o, cl], {})
+        g.check(f"WebVTT tag of {k}", list(VW._convert_style_to_text_tag(k)) == [o, cl], {})
     tagd = StubTag("span", {"tts:fontWeight": "bold", "tts:textDecoration": "underline noLineThrough", "tts:fontStyle": "italic"})
     g.check("DFXP reader understands bold / underline / italic attributes",
             DFXPReader()._convert_style(tagd) == {"bold": True, "underline": True, "italics": True}, {})
